@@ -272,5 +272,7 @@ void h_watch_register(void)
 	r = iv_inotify_watch_register(v_w[0]);
 	__CPROVER_assert(IMPLIES(verif_in.add_ret == -1, r == -1 && spec_find(v_in, 100) == NULL), "[C20] a watch the kernel refuses is not added");
 	__CPROVER_assert(IMPLIES(r == 0, spec_find(v_in, verif_in.add_ret) == v_w[0] && v_w[0]->wd == verif_in.add_ret), "[C20] a registered watch is found under the descriptor the kernel assigned");
+	if (NW >= 2 && verif_in.registered[1] && verif_in.add_ret == v_w[1]->wd)
+		__CPROVER_assert(r == -1 && spec_find(v_in, verif_in.add_ret) == v_w[1], "[C20] the kernel hands out one descriptor per watched inode: a second watch object that gets a descriptor already held by a registered watch is refused, and that watch stays the one events are routed to");
 	CANARY();
 }
